@@ -1,6 +1,7 @@
 import KV.Eval
 import KV.PlanLemmas
 import KV.Value
+import KV.CallsValue
 /-! # C02 — injector result equals sequential evaluation of the declared graph
 
 Property statements only.  Values are Herbrand terms (`KV.Val`): providers are uninterpreted, so "equal
@@ -59,5 +60,38 @@ theorem C02_async_value (f : Nat → Bool) {provs0 : List PSpec} {ret : Nat} {p'
     (hp : plan (setAsync f provs0) ret = .ok p') (hs : supplierMap provs0 = .ok (provs, sup))
     (v : Val) (hv : GraphVal p'.g v) : Eval provs sup ret v :=
   plan_value_async f hp hs v hv
+
+/-- **Exactly once / never.**  A provider is invoked by the emitted program (some `enter` of a node of that
+    provider occurs in some thread) iff it is needed for the requested type; two invocations of the same provider
+    are the same node — and a node's `enter` occurs at exactly one position (`C02_enter_once`). -/
+theorem C02_calls_exact {provs0 : List PSpec} {ret : Nat} {p : PlanOut} {provs : List PSpec} {sup : SupMap}
+    (h : plan provs0 ret = .ok p) (hs : supplierMap provs0 = .ok (provs, sup)) :
+    (∀ q, (∃ n t args, T1.Op.enter n args ∈ T1.thread (emitted p) t ∧ (p.g.nodes.getD n default).isArg = false ∧
+        (p.g.nodes.getD n default).prov = q) ↔ Needed provs sup ret q) ∧
+    (∀ n n' t t' args args', T1.Op.enter n args ∈ T1.thread (emitted p) t →
+      T1.Op.enter n' args' ∈ T1.thread (emitted p) t' →
+      (p.g.nodes.getD n default).prov = (p.g.nodes.getD n' default).prov → n = n') :=
+  calls_exact h hs
+
+theorem C02_enter_once {provs0 : List PSpec} {ret : Nat} {p : PlanOut} (h : plan provs0 ret = .ok p)
+    {t j t' j' n : Nat} {a a' : List Nat}
+    (h1 : T1.opAt (emitted p) t j = some (.enter n a)) (h2 : T1.opAt (emitted p) t' j' = some (.enter n a')) :
+    t = t' ∧ j = j' :=
+  enter_once h h1 h2
+
+/-- **Every run executes everything.**  In a final state of any fault-free run (no thread can move) every thread
+    has executed all of its operations: each emitted provider call happened exactly once. -/
+theorem C02_run_complete {provs0 : List PSpec} {ret : Nat} {p : PlanOut} (h : plan provs0 ret = .ok p)
+    {s : T1.Pcs} (hr : T1.Reach (emitted p) s) (hmax : ∀ t, ¬ T1.Enabled (emitted p) s t) :
+    ∀ t, T1.pc s t = (T1.thread (emitted p) t).length :=
+  run_calls_once h hr hmax
+
+/-- **The value returned.**  The variable the injector returns holds (symbolically, `VarVal`: parameters hold the
+    caller's arguments, a call puts `provider(inputs)` into its result variables) exactly the reference
+    evaluation of the requested type, and nothing else. -/
+theorem C02_returned_value {provs0 : List PSpec} {ret : Nat} {p : PlanOut} {provs : List PSpec} {sup : SupMap}
+    (h : plan provs0 ret = .ok p) (hs : supplierMap provs0 = .ok (provs, sup)) :
+    ∃ x, VarVal p p.b.retParam x ∧ GraphVal p.g x ∧ Eval provs sup ret x ∧ ∀ x', VarVal p p.b.retParam x' → x' = x :=
+  returned_value h hs
 
 end C02
